@@ -993,6 +993,7 @@ class Engine:
             G(z3.Implies(z3.And(x == i2, z3.fpLEQ(f2, zero)), z3.fpGEQ(r, f2)), "float64(int64(f)) >= f for f <= 0")
             G(z3.Implies(z3.And(x == -i2, z3.fpLEQ(f2, zero), i2 != bv(-(1 << 63))), z3.fpLEQ(r, z3.fpNeg(f2))), "float64(-int64(f)) <= -f for f <= 0")
         apps.append((x, r))
+        self.refinements.append(r == z3.fpSignedToFP(RNE, x, F64))
         return r
 
     def abs_float_to_int(self, f):
@@ -1020,6 +1021,7 @@ class Engine:
             # truncation is towards zero: int64(f) does not exceed an integer whose float is >= f, for f >= 0
             G(z3.Implies(z3.And(inr, z3.fpGEQ(f, zero), z3.fpLEQ(f, r2), x2 >= 0), r <= x2), "int64(f) <= x when 0 <= f <= float64(x)")
         apps.append((f, r))
+        self.refinements.append(z3.Implies(inr, r == z3.fpToSBV(RTZ, f, BV64)))
         return r
 
     def map_const_ite(self, x, f, isconst, depth=4):
@@ -1082,6 +1084,7 @@ class Engine:
                     G(z3.Implies(z3.And(ok, z3.fpLEQ(x, x2)), z3.fpLEQ(r, r2)), "fpmul: monotone in x for y >= 0")
                     G(z3.Implies(z3.And(ok, z3.fpLEQ(x2, x)), z3.fpLEQ(r2, r)), "fpmul: monotone in x for y >= 0")
             apps.append((x, y, r))
+            self.refinements.append(r == z3.fpMul(RNE, x, y))
         return r
 
     def fp_div(self, x, y):
